@@ -625,6 +625,14 @@ func pruneDecls(smt string) string {
 	return strings.Join(out, "\n")
 }
 
+// dischargeLight: one race per obligation, no further stages (used for the retry on identical copies).
+func (e *Engine) dischargeLight(obls []*Obligation) {
+	parallelDo(len(obls), e.workers, func(i int) {
+		o := obls[i]
+		o.Res, o.All = raceSolvers(e.tmp, fmt.Sprintf("copy%04d_%s_%s", i, shortKey(o.Func), o.Name), o.SMT, e.timeout, e.allSolvers, nil)
+	})
+}
+
 // discharge runs all obligations in parallel.
 func (e *Engine) discharge(obls []*Obligation) {
 	parallelDo(len(obls), e.workers, func(i int) {
